@@ -119,7 +119,9 @@ class C20(Prop):
             "(b) stress: N threads x M transactions under an external lock must deliver every send exactly once with no panic; "
             "without the lock (class K2) anomalies are reported as known finding. Non-trivial = at least one delivery.")
     level_text = ("Theorems over Model/Threads.v: C20_overlap_refuted (overlapping brackets give an execution equal to no serial order), "
-                  "C20_nonoverlap_serial (whole non-overlapping transactions compose sequentially). Tie: deterministic schedule replay on "
+                  "C20_nonoverlap_serial (whole non-overlapping transactions compose sequentially), C20_bracket_thread_irrelevant (re-labelling the "
+                  "thread of any bracket step leaves the execution unchanged: a scoped transaction handed to another thread behaves like one "
+                  "run by a single thread). Tie: deterministic schedule replay on "
                   "the real library (closure brackets, and scoped transactions opened by one thread and closed by the other) equals the "
                   "model step by step - for schedules whose brackets do not overlap the model is the serial specification, a difference "
                   "is a failing input; locked stress test. The property itself FAILS on the unchanged tree "
@@ -132,7 +134,8 @@ class C20(Prop):
         n = self.counts[0] if tier == "quick" else self.counts[1]
         scripts = [("overlap", ["interleaving", "A {", "A send 1", "B {", "B send 100", "A }", "B }"]),
                    ("serial_ab", ["interleaving", "A {", "A send 1", "A }", "B {", "B send 100", "B }"]),
-                   ("serial_ba", ["interleaving", "B {", "B send 100", "B }", "A {", "A send 1", "A }"])]
+                   ("serial_ba", ["interleaving", "B {", "B send 100", "B }", "A {", "A send 1", "A }"]),
+                   ("handoff", ["interleaving", "A topen 0", "A send 7", "B tclose 0"])]
         for k in range(n):
             # random schedules: each thread has 1-3 transactions of 1-2 sends, possibly nested brackets
             prog = {}
